@@ -169,8 +169,11 @@ fn get_text_edit_range_in_string(
 
     let new_text_range = TextRange::new(start_offset.into(), end_offset.into());
 
+    // a completion edit has to stay on one line: a string that continues on the next line
+    // (backslash-newline, long string) gets no string-content completion
     builder
         .semantic_model
         .get_document()
         .to_lsp_range(new_text_range)
+        .filter(|range| range.start.line == range.end.line)
 }
